@@ -396,6 +396,14 @@ class Parser:
     def parse_prefix_expression(self, stream: TokenStream) -> Expression:
         tok = stream.next_token()
         assert tok.type_ == TokenType.NOT
+        # logical-not-op applies to a parenthesized expression, a query or a
+        # function call only.
+        stream.expect(
+            TokenType.LPAREN,
+            TokenType.ROOT,
+            TokenType.CURRENT,
+            TokenType.FUNCTION,
+        )
         return PrefixExpression(
             tok,
             operator="!",
